@@ -5,10 +5,11 @@ bacpypes.core (run, run_once, deferred) on the virtual clock of vf.world.
 """
 from ..api import Inst, Violation, meta
 from ..world import World
-from ..ref.C14_sched import RefScheduler, judge, NEVER, PENDING, SUSPENDED
+from ..ref.C14_sched import RefScheduler, judge, NEVER, SUSPENDED
 
 import bacpypes.core as core
-from bacpypes.task import OneShotTask, RecurringTask
+import bacpypes.task as taskmod
+from bacpypes.task import FunctionTask, OneShotTask, RecurringTask, TaskManager
 
 STUBS = ["bacpypes.task._time -> harness clock (processing takes zero time)",
          "bacpypes.task._Trigger -> flag object: set() makes the next (stubbed) asyncore.loop return at "
@@ -171,6 +172,59 @@ def sched_ops(d, ntasks, nops, drive, pre, short=False):
     d.reach()
 
 
+# ------------------------------------------------------------------ before_manager
+@meta(bounds="operation sequences of every length 0..nops over {install at absolute t, suspend} (opcode, task and "
+             "the integer instant t in 0..8 symbolic; same symmetry reduction as sched_ops) on up to ntasks one-shot "
+             "tasks, performed while no TaskManager exists yet (module import time: task.py keeps such tasks in "
+             "a list and hands them to the manager when it is created); then the TaskManager is created and the "
+             "loop (polled directly) runs until everything pending has fired; same reference scheduler and oracle "
+             "as sched_ops.  suspend may raise (it does for a task that is not in the list); what counts is that "
+             "a suspended task does not fire and a re-installed one fires once, at its new time.",
+      outside="install after delta / resume before the manager exists (both are refused by exception), recurring "
+              "tasks before the manager exists, sequences longer than nops",
+      stubs=STUBS, assumes=[EXACT])
+def before_manager(d, ntasks, nops):
+    w = World()
+    # forget the manager World has just made: the operations below come before there is one
+    taskmod._task_manager = None
+    TaskManager._singleton_instance = None
+    log = []
+    tasks = _probes(ntasks, log, w)
+    ref = RefScheduler(ntasks)
+    used = 0
+    trace = []
+    n = d.int(0, nops, 'len')
+    for k in range(nops):
+        if k >= n:
+            break
+        op = d.pick(("at", "suspend"), 'op%d' % k)
+        lbl = d.index(min(used + 1, ntasks), 'task%d' % k)
+        if lbl == used:
+            used += 1
+        if op == "at":
+            t = d.int(0, TMAX, 'at%d' % k)
+            trace.append((op, lbl, t))
+            tasks[lbl].install_task(when=t)
+            ref.install(lbl, t)
+        else:
+            trace.append((op, lbl))
+            try:
+                tasks[lbl].suspend_task()
+            except Exception:
+                pass
+            ref.suspend(lbl)
+    d.note(ops=trace)
+    w.tm = TaskManager()
+    if log:
+        raise Violation("fired-outside-loop", task=log[0][0])
+    start = w.clock
+    _drive(w, start + TMAX + 1, 4 * ntasks + 8)
+    v = judge(ref, list(log), start, start + TMAX + 1)
+    if v is not None:
+        raise Violation(v[0], phase="before-manager", **v[1])
+    d.reach()
+
+
 # ------------------------------------------------------------------ recurring
 TOL = 1.0e-6      # the jitter task.py itself adds; the suite's almost_equal uses the same
 
@@ -185,36 +239,34 @@ class _Tick(RecurringTask):
         self.log.append(self.w.tm.get_time())
 
 
-@meta(bounds="interval = 125 ms * m and offset = 125 ms * k, m in 1..mmax, 0 <= k < m; installed at the instant "
-             "j/8 s (j in 0..jmax); the real core.run then runs for h/8 s (h in 0..hmax) of virtual time, sleeping "
-             "from firing to firing; m, k, j, h symbolic integers (m chosen per path when pick_m is set, so that "
-             "the solver sees linear arithmetic); drive=direct polls get_next_task/process_task instead.  "
-             "Oracle in integer eighths of a second: firing i happens at the i-th slot k + q*m that is strictly "
-             "later than j, the next slot after the last firing lies beyond the horizon (none skipped, none "
-             "duplicated, none early).  Fire times are compared with a tolerance of 1e-6 s (the jitter "
-             "RecurringTask.install_task adds itself) because under plain binary64 replay the formula lands "
-             "within an ulp of the slot; under the solver the comparison is exact.",
+@meta(bounds="interval = 125 ms * m and offset = 125 ms * k, m in mlo..mhi (chosen per path, so that the solver "
+             "sees linear arithmetic), 0 <= k < m; installed at the instant j/8 s (j in 0..jmax); the real core.run "
+             "then runs for h/8 s of virtual time, sleeping from firing to firing, h in 0..min(hmax, fmax*m) (at "
+             "most fmax+1 firings); k, j, h symbolic integers; drive=direct polls get_next_task/process_task "
+             "instead.  Oracle in integer eighths of a second: firing i happens at the i-th slot k + q*m that is "
+             "strictly later than j, and the slot after the last firing lies beyond the horizon (none skipped, "
+             "none duplicated, none early).  Fire times are compared with a tolerance of 1e-6 s (the jitter "
+             "RecurringTask.install_task adds itself, and what the suite's almost_equal allows) because under "
+             "plain binary64 replay the formula lands within an ulp of the slot; under the solver (real "
+             "arithmetic) the firing is exactly on the slot.",
       outside="intervals/offsets that are not multiples of 125 ms (non-representable binary fractions: smtk lemma), "
-              "horizons beyond hmax/8 s, installation within 1e-6 s before a slot, negative offsets",
+              "intervals above mhi/8 s, more than fmax+1 firings, installation within 1e-6 s before a slot, "
+              "negative offsets, several recurring tasks at once",
       stubs=STUBS, assumes=[EXACT])
-def recurring(d, mmax, jmax, hmax, drive="loop", pick_m=True):
+def recurring(d, mlo, mhi, jmax, hmax, fmax, drive="loop"):
     w = World()
     log = []
-    if pick_m:
-        m = d.pick(range(1, mmax + 1), 'interval/125ms')
-    else:
-        m = d.int(1, mmax, 'interval/125ms')
-    k = d.int(0, mmax - 1, 'offset/125ms')
-    d.assume(k < m)
+    m = d.pick(range(mlo, mhi + 1), 'interval/125ms')
+    k = d.int(0, m - 1, 'offset/125ms')
     j = d.int(0, jmax, 'install/125ms')
-    h = d.int(0, hmax, 'horizon/125ms')
+    h = d.int(0, min(hmax, fmax * m), 'horizon/125ms')
     w.clock = j / 8.0
     tick = _Tick(log, w)
     tick.install_task(interval=125 * m, offset=125 * k)
     if log:
         raise Violation("fired-outside-loop", at=log[0])
     end = j + h
-    limit = 3 * (hmax + 2) + 8
+    limit = 3 * (fmax + 2) + 8
     if drive == "loop":
         w.run(until=end / 8.0, max_loops=limit)
     else:
@@ -303,8 +355,10 @@ def deferred(d, loop, nmin, nmax, tmax, lead=None):
         tks.append(("t%d" % j, d.bool('traises%d' % j), d.bool('tdefers%d' % j)))
     for name, r, f in fns:
         submit(name, member(name, r, f, called))
-    for name, r, f in tks:
-        _Due(member(name, r, f, fired)).install_task(when=0)
+    for j, (name, r, f) in enumerate(tks):
+        body = member(name, r, f, fired)
+        # odd ones through the library's own wrapper (a OneShotDeleteTask)
+        (FunctionTask(body) if j % 2 else _Due(body)).install_task(when=0)
     want_tasks = [name for name, _, _ in tks]
 
     def pending():
@@ -336,8 +390,8 @@ def deferred(d, loop, nmin, nmax, tmax, lead=None):
         before = [x for x in raised if x in submitted and submitted.index(x) < submitted.index(lost[0])]
         if before:
             # the defect this kind names: the functions queued behind a raising one are discarded
-            raise Violation("deferred-batch-dropped", loop=loop, raiser=before[-1], dropped=lost,
-                            submitted=list(submitted), called=list(called))
+            raise Violation("deferred-batch-dropped", loop=loop, raiser=before[-1], ndropped=len(lost),
+                            dropped=lost, submitted=list(submitted), called=list(called))
         raise Violation("deferred-not-called", loop=loop, lost=lost, submitted=list(submitted),
                         called=list(called), raised=list(raised))
     if called != submitted:
@@ -359,26 +413,26 @@ def _prefixes(k):
     return out
 
 
-# opcode shapes beyond the exhaustive length (tasks and instants stay symbolic): what each aims at
-SHAPES_QUICK = [
-    ["at", "at", "at", "suspend"],              # removal from a schedule of three: the rest stays ordered
-    ["at", "at", "at", "at"],                   # four-way collisions, re-installs among three pending
-    ["at", "suspend", "resume", "advance"],     # resume after suspend, then time moves
-    ["at", "advance", "suspend", "at"],         # suspend of an already-fired task, then a new installation
-    ["after", "advance", "at", "advance"],      # installation in the past / future once time has moved
-    ["at", "at", "suspend", "resume", "advance"],
-]
-SHAPES_THOROUGH = SHAPES_QUICK + [
-    ["at", "at", "at", "at", "suspend"],
-    ["at", "at", "at", "suspend", "suspend"],
-    ["at", "at", "at", "suspend", "resume"],
-    ["at", "at", "advance", "at", "advance"],
-    ["at", "after", "advance", "after", "advance"],
-    ["at", "at", "at", "advance", "at"],
-    ["at", "at", "suspend", "advance", "resume", "advance"],
-    ["at", "advance", "at", "advance", "at", "advance"],
-    ["after", "suspend", "advance", "resume", "suspend", "advance"],
-    ["at", "at", "at", "suspend", "at", "advance"],
+# opcode shapes beyond the exhaustive length (tasks and instants stay symbolic); True = also in quick
+SHAPES = [
+    (["at", "at", "at", "suspend"], True),              # removal from a schedule of three keeps the order
+    (["at", "at", "at", "at"], True),                   # four-way collisions, re-installs among three pending
+    (["at", "suspend", "resume", "advance"], True),     # resume after suspend, then time moves
+    (["at", "advance", "suspend", "at"], True),         # suspend of an already-fired task, new installation
+    (["after", "advance", "at", "advance"], True),      # installation in the past / future once time moved
+    (["at", "at", "suspend", "resume", "advance"], True),
+    (["at", "at", "at", "suspend", "suspend"], True),
+    (["at", "at", "at", "suspend", "resume"], True),
+    (["at", "at", "advance", "at", "advance"], True),
+    (["at", "after", "advance", "after", "advance"], True),
+    (["at", "at", "suspend", "advance", "resume", "advance"], True),
+    (["at", "advance", "at", "advance", "at", "advance"], True),
+    (["after", "suspend", "advance", "resume", "suspend", "advance"], True),
+    (["at", "at", "at", "at", "suspend"], False),
+    (["at", "at", "at", "advance", "at"], False),
+    (["at", "at", "at", "suspend", "at", "advance"], False),
+    (["at", "at", "at", "at", "advance", "suspend"], False),
+    (["at", "at", "suspend", "at", "resume", "advance"], False),
 ]
 
 
@@ -393,15 +447,21 @@ def instances(tier):
                             label="%s,all<=%d:%s" % (drive, nops, "-".join(pre))))
         out.append(Inst(sched_ops, dict(ntasks=4, nops=plen - 1, drive=drive, pre=[], short=True),
                         budget=60, label="%s,all<=%d" % (drive, plen - 1)))
-    for i, shape in enumerate(SHAPES_QUICK if q else SHAPES_THOROUGH):
+    for i, (shape, in_quick) in enumerate(SHAPES):
+        if q and not in_quick:
+            continue
         for drive in (("loop", "direct")[i % 2],) if q else ("loop", "direct"):
             out.append(Inst(sched_ops, dict(ntasks=4, nops=len(shape), drive=drive, pre=shape),
                             budget=120 if q else 900, label="%s,shape:%s" % (drive, "-".join(shape))))
+    out.append(Inst(before_manager, dict(ntasks=3, nops=4 if q else 5), budget=90 if q else 900))
     for drive in ("loop", "direct"):
         if q:
-            out.append(Inst(recurring, dict(mmax=8, jmax=16, hmax=16, drive=drive), budget=90))
+            out.append(Inst(recurring, dict(mlo=1, mhi=8, jmax=16, hmax=16, fmax=8, drive=drive),
+                            budget=90, path_timeout=120))
         else:
-            out.append(Inst(recurring, dict(mmax=16, jmax=32, hmax=32, drive=drive), budget=900))
+            for mlo, mhi in ((1, 2), (3, 6), (7, 16)):
+                out.append(Inst(recurring, dict(mlo=mlo, mhi=mhi, jmax=32, hmax=32, fmax=12, drive=drive),
+                                budget=900, path_timeout=300))
     for loop in ("run", "run_once"):
         if q:
             out.append(Inst(deferred, dict(loop=loop, nmin=0, nmax=3, tmax=2), budget=90))
